@@ -172,6 +172,10 @@ func isMarker(data []byte) (name string, after []byte) {
 	if !bytes.HasSuffix(data, markerEnd) {
 		return "", nil
 	}
+	if len(data) < len(marker)+len(markerEnd) {
+		// "-- --" is too short to hold a name: marker and markerEnd must not overlap.
+		return "", nil
+	}
 	return strings.TrimSpace(string(data[len(marker) : len(data)-len(markerEnd)])), after
 }
 
